@@ -16,10 +16,10 @@ EXPLANATION = (
     "by the defaulting idiom, with literals equal to the stage's signature defaults. R3: the configuration routes "
     "(get_config keys, SiftConfig.get_func partial) deliver keys that are formals of the variant / stage and do "
     "not collide with explicit keywords at the ** sites. R4 sibling agreement: an option a function forwards to a helper "
-    "at one call site is forwarded at every call of that helper (peak / trough, upper / lower envelope). Not decided: how much an option changes the numbers.")
+    "at one call site is forwarded at every call of that helper (peak / trough, upper / lower envelope). R5: every stop_method dispatches to its stop function with the supplied thresholds on the formals they configure (sd_thresh, rilling_thresh[0..2], max_iters). Not decided: how much an option changes the numbers.")
 RULE_TEXT = ("one obligation per (caller, call/dispatch site, carrier); distinct = distinct keys; all evaluated "
              "paths of the caller must bind the carrier for a PASS")
-FLOORS = {'C06.R1': 40, 'C06.R2': 10, 'C06.R3': 6, 'C06.R4': 3}
+FLOORS = {'C06.R1': 40, 'C06.R2': 10, 'C06.R3': 6, 'C06.R4': 3, 'C06.R5': 3}
 PINNED_EXPECT = [('C06.R1', 'emd.sift.get_next_imf_mask', 'envelope_opts'),
                  ('C06.R1', 'emd.sift.get_next_imf_mask', 'extrema_opts'),
                  ('C06.R1', 'emd.sift.complete_ensemble_sift', 'starmap(sift)#1 / imf_opts'),
@@ -48,6 +48,12 @@ def run(ctx):
     from .c18 import rule_get_func
     ctx.rule(rule_get_func, 'C06.R3')
     ctx.rule(rule_sibling_forwarding, 'C06.R4')
+    # the IMF-extraction options themselves (stop rule, thresholds, iteration limit) govern the stop decision of the
+    # extraction: each stop_method literal dispatches to its stop function with sd_thresh / rilling_thresh[0..2] /
+    # max_iters on the formals they configure (the rule C04.R2 is built on; here it decides "a supplied threshold is
+    # never silently replaced by another value")
+    from . import siftcore
+    ctx.rule(siftcore.rule_stop_dispatch, 'C06.R5', ctx.P.func('emd.sift.get_next_imf'))
 
 
 # ----------------------------------------------------------------------------------------------
